@@ -26,8 +26,10 @@ theorem RelSess.congr {ss : List (Nat × Gen)} {slots slots' : Slot → DSlot} {
 theorem RelListen.congr {s : Server} {slots slots' : Slot → DSlot} {ms ms' : Slot → MSlot}
     (h : RelListen s slots ms)
     (e1 : ∀ i, (slots' i).used = (slots i).used) (e2 : ∀ i, (slots' i).sid = (slots i).sid)
-    (e3 : ∀ i, (slots' i).modern = (slots i).modern) (e4 : ∀ i, (slots' i).rsubs = (slots i).rsubs)
-    (e5 : ∀ i, (slots' i).cancelHeld = (slots i).cancelHeld) (e6 : ∀ i, (slots' i).gated = (slots i).gated)
+    (e3 : ∀ i, (slots' i).modern = (slots i).modern)
+    (e4 : ∀ i u, (u ∈ (slots i).rsubs ∨ ridOf u ∈ (slots i).cancelHeld) →
+      (u ∈ (slots' i).rsubs ∨ ridOf u ∈ (slots' i).cancelHeld))
+    (e6 : ∀ i, (slots' i).gated = (slots i).gated)
     (m1 : ∀ i, (ms' i).listens = (ms i).listens) (m2 : ∀ i, (ms' i).luris = (ms i).luris)
     (m3 : ∀ i, (ms' i).owed = (ms i).owed) :
     RelListen s slots' ms' := by
@@ -35,7 +37,7 @@ theorem RelListen.congr {s : Server} {slots slots' : Slot → DSlot} {ms ms' : S
   · exact h.all_acked
   · intro i hu ml; rw [e1] at hu; rw [m1, e2]; exact h.listens i hu ml
   · intro i hu hm u; rw [e1] at hu; rw [e3] at hm; rw [m2, e2]; exact h.luris i hu hm u
-  · intro i hu u hl; rw [e1] at hu; rw [e2] at hl; rw [e4, e5]; exact h.sub_live i hu u hl
+  · intro i hu u hl; rw [e1] at hu; rw [e2] at hl; exact e4 i u (h.sub_live i hu u hl)
   · intro i hu hg; rw [e1] at hu; rw [e6] at hg; rw [e2]; exact h.gated_none i hu hg
   · intro i hu; rw [e1] at hu
     have := h.idle i hu
